@@ -6,8 +6,10 @@ PyU — the run-time library of the UNTYPED Python→Lean translator (`tools/py2
 `tools/py2leanu.py` turns the *source text* of dynamically typed functions of /repo (heterogeneous tuples, cstruct
 enums, `io.BytesIO` cursors, `while True:` loops, `dict.get`, `str.format`, `bytes.rstrip/partition/decode`) into Lean
 definitions over ONE universal value type `PyU.V`.  The generated definitions mention nothing but the operations below,
-so this file is the complete statement of the Python semantics the untyped translation relies on (trusted; the generated
-functions are run against the real functions on every case of the `g-*` streams of C03).
+so this file is the complete statement of the Python semantics the untyped translation relies on (trusted; every
+operation is exercised against CPython 3.12 / dissect.cstruct 4.7 on random operands of all kinds by the `pyu`
+correspondence stream of C03, and the generated functions are run against the real functions on every case of the
+`g-*` streams of C03).
 
 Conventions
   * every operation is a total function; the raising branches of CPython 3.12 / dissect.cstruct 4.7 are explicit
@@ -16,7 +18,8 @@ Conventions
     indexing and `p.read(n)` through their integer value (`asInt`).
   * kinds of operands an operation does not model (stated in its doc comment, e.g. `format(b"..", "")` = `repr`, comparing
     lists with `<`, `Enum("12")`) answer `TypeError`; the `gen_*` theorems of Props/C03Gen.lean show that the translated
-    functions never reach such a branch for `bytes` arguments, and the `g-*` streams compare every answer with CPython.
+    functions never reach such a branch for `bytes` arguments, the `g-*` streams compare every answer with CPython, and
+    the `pyu` stream (tools/harness/c03.py: `pyu_modelled`) leaves exactly these operand kinds out.
   * mutable objects (`list`, `io.BytesIO`) are VALUES here; the translator threads them through the program explicitly
     (`p.read(4)` returns the data and the new cursor) and rejects every program in which such an object could be aliased.
   * loops: `whileFuel` runs the loop body at most `fuel` times (`Timeout` when the fuel runs out); the equivalence
@@ -267,9 +270,14 @@ def mul (a b : V) : Py V :=
 Not modelled (TypeError): `%` as string formatting, `|` on dicts / sets. -/
 def floordiv (a b : V) : Py V := do let p ← ints2 a b; let r ← PyRt.floordiv p.1 p.2; pure (.int r)
 def mod (a b : V) : Py V := do let p ← ints2 a b; let r ← PyRt.mod p.1 p.2; pure (.int r)
-def band (a b : V) : Py V := (ints2 a b).map fun p => .int (PyRt.band p.1 p.2)
-def bor (a b : V) : Py V := (ints2 a b).map fun p => .int (PyRt.bor p.1 p.2)
-def bxor (a b : V) : Py V := (ints2 a b).map fun p => .int (PyRt.bxor p.1 p.2)
+/-- the bit-wise operators keep `bool` when both operands are `bool` -/
+def bitop (f : Int → Int → Int) (a b : V) : Py V :=
+  match a, b with
+  | .bool x, .bool y => .ok (.bool (f (if x then 1 else 0) (if y then 1 else 0) != 0))
+  | _, _ => (ints2 a b).map fun p => .int (f p.1 p.2)
+def band (a b : V) : Py V := bitop PyRt.band a b
+def bor (a b : V) : Py V := bitop PyRt.bor a b
+def bxor (a b : V) : Py V := bitop PyRt.bxor a b
 def shl (a b : V) : Py V := do let p ← ints2 a b; let r ← PyRt.shl p.1 p.2; pure (.int r)
 def shr (a b : V) : Py V := do let p ← ints2 a b; let r ← PyRt.shr p.1 p.2; pure (.int r)
 def neg (a : V) : Py V :=
@@ -279,8 +287,9 @@ def neg (a : V) : Py V :=
 
 /-! ### containers -/
 
-/-- `len(x)` -/
+/-- `len(x)`; for a cstruct enum member: the size of the underlying integer type (`BaseType.__len__`) -/
 def len : V → Py V
+  | .enum cls _ => .ok (.int cls.size)
   | .bytes b => .ok (.int b.length)
   | .str s => .ok (.int s.length)
   | .list xs => .ok (.int xs.length)
@@ -393,16 +402,20 @@ def bound : V → Py (Option Int)
     | some n => .ok (some n)
     | none => .error .typeError
 
-/-- `x[lo:hi]` -/
-def slice (x lo hi : V) : Py V := do
-  let a ← bound lo
-  let b ← bound hi
+/-- `x[lo:hi]` for a sequence (bounds `None` or int-like); a dict looks the `slice` object up as a key (hashable since
+Python 3.12, never present: KeyError) -/
+def slice (x lo hi : V) : Py V :=
   match x with
-  | .bytes d => pure (.bytes (PyRt.slice d a b))
-  | .str d => pure (.str (PyRt.slice d a b))
-  | .list d => pure (.list (PyRt.slice d a b))
-  | .tuple d => pure (.tuple (PyRt.slice d a b))
-  | _ => throw .typeError
+  | .dict _ _ => if hashable lo && hashable hi then .error .keyError else .error .typeError
+  | _ => do
+    let a ← bound lo
+    let b ← bound hi
+    match x with
+    | .bytes d => pure (.bytes (PyRt.slice d a b))
+    | .str d => pure (.str (PyRt.slice d a b))
+    | .list d => pure (.list (PyRt.slice d a b))
+    | .tuple d => pure (.tuple (PyRt.slice d a b))
+    | _ => throw .typeError
 
 /-- the items an unpacking assignment iterates over -/
 def iterList : V → Py (List V)
@@ -571,7 +584,7 @@ def utf8 (s : Bytes) : Py Str :=
         else .error .valueError
       | _ => .error .valueError
     else .error .valueError
-termination_by s.length
+termination_by structural s
 
 /-- `x.decode()` / `x.decode("utf-8")` with `errors="strict"` -/
 def decodeUtf8 : V → Py V
@@ -613,10 +626,12 @@ def fmt (v : V) (spec : String) : Py Str :=
 
 /-! ### calls of typed translations (`Gen.PyUtils`) -/
 
-/-- apply a function translated by the typed translator (`bytes → int`) to a dynamic value.  Not modelled (TypeError):
-a non-`bytes` argument (CPython: TypeError for None / int / str / BytesIO; lists of ints are accepted by `int.from_bytes`). -/
+/-- apply a function of utils.py translated by the typed translator (`data: bytes → int`, body `int.from_bytes(data[:size], …)`)
+to a dynamic value: `None` / int-likes / `BytesIO` are not subscriptable and a `str` slice is not bytes-like (TypeError), a
+dict has no `slice` key (KeyError).  Not modelled (TypeError): lists / tuples (of ints: accepted by `int.from_bytes`). -/
 def liftBytesInt (f : Bytes → Py Int) : V → Py V
   | .bytes d => (f d).map .int
+  | .dict _ _ => .error .keyError
   | _ => .error .typeError
 
 /-! ### loops -/
